@@ -28,8 +28,7 @@ PROPS = {
         "assumptions": ["element sizes (size_of::<T>()) are passed by the harness"],
     },
     "C05": {
-        "modules": ["Ark.Props.C05"],
-        "claimed": False,
+        "modules": ["Ark.Props.C05a", "Ark.Props.C05b", "Ark.Props.C05"],
         "rule": "one op line per MSM entry point / digit recoding / accumulator history; distinct = distinct op line; non-trivial = non-empty inputs with scalars outside {0,1}",
         "exhaustive": ["all (bases, scalars) on the order-7 toy curve (single window); every add/finalize history of length <= 6 x buffer sizes 0..9"],
         "partial": [],
@@ -37,11 +36,11 @@ PROPS = {
     },
     "C13": {
         "modules": ["Ark.Props.C13"],
-        "claimed": False,
         "rule": "one op line per expander / hash_to_field / map_to_curve / hash call; distinct = distinct op line; non-trivial = non-empty message or u outside {0,1}",
         "exhaustive": ["all u of the toy SWU (F_127, F_49), WB and Elligator (F_101, F_127) configurations"],
         "partial": [],
-        "assumptions": ["supported suites = BLS12-381 G1/G2 with SHA-256 (L = 64); DefaultFieldHasher with L != 64 pads Z_pad with L bytes (note, outside the supported suites)"],
+        "partial": ["image of the isogeny lies on the target curve: proved from an explicit polynomial identity hypothesis (IsoIdentity); that the shipped BLS12-381 isogeny coefficients satisfy it is checked on the generator only (C16) and by the correspondence on all exceptional and random inputs", "final hash lies in the prime-order subgroup: belongs to cofactor clearing (C12); here judged by the driver computing r*P on every hash line"],
+        "assumptions": ["supported suites = BLS12-381 G1/G2 with SHA-256 (L = 64); DefaultFieldHasher with L != 64 pads Z_pad with L bytes (note, outside the supported suites)", "theorems assume a sound square-root/parity dictionary (FieldXSound, ParitySound) and a finite field (product of two non-squares is a square)"],
     },
     "C16": {
         "modules": ["Ark.Props.C16"],
